@@ -753,6 +753,7 @@ func (fc *FnCtx) execInstr(ins ssa.Instruction) (terminated bool, err error) {
 		}
 		fc.chanInit(r, sz.T)
 		fc.env[x] = Val{T: r, S: SInt, Typ: x.Type()}
+		fc.chanFact(fc.env[x], nil)
 		return false, nil
 	case *ssa.Range:
 		v, err := fc.val(x.X)
